@@ -127,7 +127,9 @@ def run_case(case):
     viol, worst = [], {}
     fp = seqgen.describe(spec) + f":init{int(case['init'])}"
     out = {}
-    for name, (sp, opt, back) in variants.items():
+    todo = list(variants.items())
+    while todo:
+        name, (sp, opt, back) = todo.pop(0)
         seq = seqgen.build(sp)
         order_ids = [a[0] for a in sp["atoms"]]
         kw = {}
@@ -144,7 +146,8 @@ def run_case(case):
         mon = ProgressMonitor(stride=10 ** 9)
         mon.install()
         try:
-            res = MPSBackend(seq, config=cfg).run()
+            with e2e.recording(MPSBackend) as rec_sd:
+                res = MPSBackend(seq, config=cfg).run()
         except Exception as e:
             import traceback
 
@@ -159,7 +162,8 @@ def run_case(case):
             viol.append({"key": f"C03:atom-order-differs-from-register-order:{name.split('-')[0]}", "msg": f"{fp} {name}: {res.atom_order} vs {order_ids}"})
         key = {(back or {}).get(q, q): k for k, q in enumerate(order_ids)}  # base id -> column in this variant
         cols = [key[q] for q in ids]
-        rec = {"nonid": mon.nonid}
+        chosen = next(iter(mon.bonds.values()))[1] if mon.bonds else None
+        rec = {"nonid": mon.nonid, "snap": rec_sd[0][0] if rec_sd else None, "cols": cols, "perm": None if chosen is None else [int(x) for x in chosen]}
         for t in times:
             o = e2e.to_np(res.get_result("occupation", t)).astype(float)[cols]
             c = e2e.to_np(res.get_result("correlation_matrix", t)).astype(float)[np.ix_(cols, cols)]
@@ -171,6 +175,55 @@ def run_case(case):
         rec["marg"] = marg / max(1, sum(bs.values()))
         rec["nshots"] = sum(bs.values())
         out[name] = rec
+        # the optimised run must equal, tightly, a run on the register inserted in the order the optimiser chose, with optimisation off:
+        # same chain order, same Hamiltonian, so TDVP's order-dependent error cancels and only the reordering machinery is compared
+        if opt and name in ("V0-opt-on", "V2-reinserted") and rec["perm"] is not None and rec["perm"] != list(range(n)):
+            twin = name.split("-")[0] + "x-same-order-opt-off"
+            variants[twin] = (seqgen.reorder(sp, rec["perm"]), False, back)
+            todo.append((twin, variants[twin]))
+    exact_cache = {}
+
+    def solver_error(name_, t_):
+        """distance of run `name_` to exact evolution of ITS OWN recorded parameters at time t_ (occupation, correlation, energy/(1+|H|), variance/(1+|H|)^2),
+        in the base atom order; None when no dense reference is affordable"""
+        r_ = out[name_]
+        if r_["snap"] is None or n > 10:
+            return None
+        if name_ not in exact_cache:
+            psi0 = None
+            if amps is not None:
+                order_ids_ = list(r_["snap"]["qubit_ids"])
+                psi0 = np.zeros(2 ** n, dtype=complex)
+                base_pos_ = {q: k for k, q in enumerate(ids)}
+                inv_ = variants[name_][2] or {}
+                for b_, a_ in amps.items():
+                    bits = "".join(b_[base_pos_[inv_.get(q, q)]] for q in order_ids_)
+                    psi0[int("".join("1" if ch in ("r", "1") else "0" for ch in bits), 2)] += a_
+                psi0 /= np.linalg.norm(psi0)
+            exact_cache[name_] = e2e.propagate(r_["snap"], psi0, umode="mid")
+        st_, hm_ = exact_cache[name_]
+        k_, _off = e2e.time_index(r_["snap"], t_)
+        H_ = hm_[k_ - 1] if k_ > 0 else hm_[0]
+        R_ = e2e.ref_observables(st_[k_], H_, n, 2)
+        cols_ = r_["cols"]
+        o_, c_, e_, v_ = r_[t_]
+        hn_ = 1.0 + float(np.linalg.norm(H_, 2))
+        return (float(np.abs(o_ - R_["occupation"][cols_]).max()), float(np.abs(c_ - R_["correlation_matrix"][np.ix_(cols_, cols_)]).max()),
+                abs(e_ - float(R_["energy"])), abs(v_ - float(R_["energy_variance"])))
+
+    for name in ("V0-opt-on", "V2-reinserted"):
+        twin = name.split("-")[0] + "x-same-order-opt-off"
+        if name in out and twin in out:
+            cnt["same_order_twins_compared"] = cnt.get("same_order_twins_compared", 0) + 1
+            for t in times:
+                o, c, e, v_ = out[name][t]
+                o2, c2, e2_, v2 = out[twin][t]
+                dmax = max(float(np.abs(o - o2).max()), float(np.abs(c - c2).max()), abs(e - e2_) / (1 + abs(e2_)))
+                worst["twin_diff"] = max(worst.get("twin_diff", 0.0), dmax)
+                if dmax > 1e-8:
+                    viol.append({"key": f"C03:optimised-run-differs-from-the-same-chain-order-without-optimisation:{name.split('-')[0]}",
+                                 "msg": f"{fp} {name} t={t}: max diff {dmax:.2e} (permutation {out[name]['perm']})", "detail": {"spec": spec}})
+                    break
     base = out.get("V1-opt-off")
     if base is not None:
         for name, rec in out.items():
@@ -182,7 +235,7 @@ def run_case(case):
                 i = int(np.argmax(dev))
                 viol.append({"key": f"C03:bitstring-positions-do-not-follow-occupations:{name.split('-')[0]}",
                              "msg": f"{fp} {name}: atom {ids[i]} frequency {rec['marg'][i]:.3f} vs occupation {p[i]:.3f}"})
-            if name == "V1-opt-off":
+            if name == "V1-opt-off" or name.endswith("x-same-order-opt-off"):
                 continue
             cnt["pairs_compared"] += 1
             for t in times:
@@ -198,6 +251,19 @@ def run_case(case):
                 # sequence from an entangled initial state, independent of `precision`): numerical differences are tolerated up to
                 # LOOSE; values that re-appear on OTHER atoms (same multiset, tight tolerance) are a permutation error at any size
                 same_multiset = np.abs(np.sort(o) - np.sort(ob)).max() <= TIGHT
+                if (d_o > LOOSE or d_c > LOOSE or d_e > LOOSE or abs(v_ - vb) > 5e-2 * (1 + abs(vb))) and not (d_o > 50 * TIGHT and same_multiset and np.ptp(ob) > 100 * TIGHT):
+                    # two runs that are each within dev of exact evolution of (equivalent) recorded parameters cannot differ by more than the sum:
+                    # differences inside that bound are the solver's accuracy (C02's subject, e.g. its finding on idle atoms), not a labelling defect
+                    sa, sb = solver_error(name, t), solver_error("V1-opt-off", t)
+                    if sa is None or sb is None:
+                        cnt["large_register_differences_not_judged"] = cnt.get("large_register_differences_not_judged", 0) + 1
+                        continue
+                    allow = [x + y + TIGHT for x, y in zip(sa, sb)]
+                    worst["variant_solver_error"] = max(worst.get("variant_solver_error", 0.0), sa[0], sa[1])
+                    worst["reference_solver_error"] = max(worst.get("reference_solver_error", 0.0), sb[0], sb[1])
+                    if d_o <= allow[0] and d_c <= allow[1] and abs(e - eb) <= allow[2] and abs(v_ - vb) <= allow[3]:
+                        cnt["differences_within_measured_solver_error"] = cnt.get("differences_within_measured_solver_error", 0) + 1
+                        continue
                 if d_o > LOOSE or (d_o > 50 * TIGHT and same_multiset and np.ptp(ob) > 100 * TIGHT):
                     i = int(np.argmax(np.abs(o - ob)))
                     viol.append({"key": f"C03:occupation-differs-between-equivalent-runs:{tag}" + (":values-permuted" if same_multiset else ""),
